@@ -51,6 +51,60 @@ def curl_reuse(ctx):
                 "with %s test and trial spaces the test-side curl transformation is `%s`" % ("equal" if same else "different", src[:80]))
 
 
+def near_dispatch(ctx):
+    """Which near-field kernel / correction an FMM interface gets, over the finite domains of mode, grid pair, representation."""
+    HE = "bempp_cl/api/fmm/helpers.py"
+    EX = "bempp_cl/api/fmm/exafmm.py"
+    r = ctx.rule("FMM-NEAR-DISPATCH", "near-field correction: kernel named by the mode (laplace / helmholtz / modified_helmholtz) with that mode's parameters and complexity; present exactly when source and target grid coincide (otherwise the target points are the target grid's); unknown representations / device interfaces are rejected", 12)
+    fn = ctx.repo.mod(HE).fn("get_local_interaction_operator")
+    body = [s for s in fn.body if not isinstance(s, (ast.Import, ast.ImportFrom)) and not (isinstance(s, ast.Expr) and isinstance(s.value, ast.Constant))]
+    kf = fn.args.args[2].arg
+    names = {"laplace": "laplace_kernel", "helmholtz": "helmholtz_kernel", "modified_helmholtz": "modified_helmholtz_kernel"}
+    rep_key = [unparse(n) for n in ast.walk(fn) if isinstance(n, ast.Attribute) and n.attr == "near_field_representation"]
+    if not rep_key:
+        raise AnalysisError("get_local_interaction_operator no longer reads fmm.near_field_representation")
+    for mode, kname in names.items():
+        effs = dispatch.effects(body, {kf: mode, rep_key[0]: "sparse", "is_complex": mode == "helmholtz"}, fn.name)
+        ks = [e[2] for e in effs if e[0] == "set" and e[1] == "kernel"]
+        r.check(ks == [kname], "kernel for %s" % mode, HE, fn.name, fn.lineno, "near-field kernel of mode " + mode, "mode %r selects the kernel function %s, expected %s" % (mode, ks, kname))
+    for rep, dev, want in (("sparse", "numba", "aslinearoperator"), ("evaluate", "numba", "LinearOperator"), ("evaluate", "opencl", "LinearOperator"), ("evaluate", "cuda", None), ("dense", "numba", None)):
+        effs = dispatch.effects(body, {kf: "laplace", rep_key[0]: rep, "device_interface": dev, "is_complex": False}, fn.name)
+        ret = [e for e in effs if e[0] == "return"]
+        raised = any(e[0] == "raise" for e in effs)
+        if want is None:
+            ok, msg = raised and not ret, "representation %r with device interface %r is not rejected" % (rep, dev)
+        else:
+            ok = len(ret) == 1 and ret[0][1].replace(" ", "").startswith(want + "(") and "(rows,cols)" in ret[0][1].replace(" ", "") and not raised
+            msg = "representation %r / device %r returns `%s`, expected a %s of shape (rows, cols)" % (rep, dev, ret[0][1][:70] if ret else None, want)
+        r.check(ok, "representation %s, device %s" % (rep, dev), HE, fn.name, fn.lineno, "near-field operator for (%s, %s)" % (rep, dev), msg)
+    # the interface: correction only for identical grids, parameters per mode
+    fg = ctx.repo.mod(EX).fn("ExafmmInterface.from_grid")
+    start = [i for i, s in enumerate(fg.body) if isinstance(s, ast.If) and "source_grid" in unparse(s.test) and "target_grid" in unparse(s.test) and "None" not in unparse(s.test)]
+    if not start:
+        raise AnalysisError("ExafmmInterface.from_grid: comparison of source and target grid not found")
+    tail = [s for s in fg.body[start[0]:] if not isinstance(s, ast.Return)]
+    want_par = {"laplace": ("[]", "False"), "helmholtz": ("[_np.real(wavenumber),_np.imag(wavenumber)]", "True"), "modified_helmholtz": ("[wavenumber]", "False")}
+    for same in (True, False):
+        for mode in names:
+            effs = dispatch.effects(tail, {"target_grid": "g", "source_grid": "g" if same else "h", "mode": mode}, "from_grid")
+            sets = {e[1]: e[2] for e in effs if e[0] == "set"}
+            tp = sets.get("target_points", "")
+            sc = sets.get("singular_correction")
+            if same:
+                okp = tp == "source_points"
+                call = ast.parse(sc, mode="eval").body if isinstance(sc, str) and sc.startswith("get_local_interaction_operator(") else None
+                okc = False
+                if call is not None and len(call.args) >= 6:
+                    a = [unparse(x).replace(" ", "") for x in call.args]
+                    par = unparse(call.args[3].args[0]).replace(" ", "") if isinstance(call.args[3], ast.Call) and call.args[3].args else a[3]
+                    okc = a[0] == "source_grid" and a[1] == "local_points" and a[2] == "'%s'" % mode and par == want_par[mode][0] and a[5] == want_par[mode][1]
+                ok, msg = okp and okc, "identical grids, mode %s: target points `%s`, correction `%s`" % (mode, tp, (sc or "")[:110])
+            else:
+                ok = tp.replace(" ", "").startswith("target_grid.map_to_point_cloud(") and sc is None
+                msg = "different grids, mode %s: target points `%s`, correction `%s` (expected the target grid's point cloud and no correction)" % (mode, tp[:60], sc)
+            r.check(ok, "grids %s, mode %s" % ("identical" if same else "different", mode), EX, "ExafmmInterface.from_grid", fg.lineno, "near-field correction for %s grids, mode %s" % ("identical" if same else "different", mode), msg)
+
+
 def fmm_mode(ctx):
     r = ctx.rule("FMM-MODE", "get_mode_from_operator_identifier maps every identifier the factories produce to its kernel family (laplace / helmholtz / modified_helmholtz; Maxwell -> helmholtz) and rejects the others", 20)
     fn = ctx.repo.mod(FA).fn("get_mode_from_operator_identifier")
